@@ -159,13 +159,16 @@ Fixpoint table2 (tbl : list (N * N * N)) (k n : N) : N :=
   | (n', k', v) :: t => if (n' =? n) && (k' =? k) then v else table2 t k n
   end.
 
-Definition mk_config_gen2 (f4 f8 : bool) (r : router) (prio : bool) (htbl : list (N * N * N)) (ctbl : list (N * N)) : config :=
+Definition mk_config_gen3 (f4 f8 f11 : bool) (r : router) (prio : bool) (htbl : list (N * N * N)) (ctbl : list (N * N)) : config :=
   mkCfg r prio (table2 htbl) (fun k _ => table_fun ctbl (fun k => k) k)
-        (fun k => k mod 5) (fun k => negb (k mod 7 =? 6)) f4 f8.
-(* F4 switch only, F8 fix on *)
+        (fun k => k mod 5) (fun k => negb (k mod 7 =? 6)) f4 f8 f11.
+Definition mk_config_gen2 (f4 f8 : bool) := mk_config_gen3 f4 f8 true.
+(* F4 switch only, later fixes on *)
 Definition mk_config_gen (fixed : bool) := mk_config_gen2 fixed true.
-(* the rules of the tree as it stands: F4 fixed (700d6bc), F8 fixed (aa3c2d4) *)
-Definition mk_config := mk_config_gen2 true true.
+(* the rules of the tree as it stands: F4 (700d6bc), F8 (aa3c2d4), F11 (36a533a) fixed *)
+Definition mk_config := mk_config_gen3 true true true.
 Definition mk_config_f8 := mk_config.
+(* the rule before the F11 fix, kept for the refutation example *)
+Definition mk_config_pre_f11 := mk_config_gen3 true true false.
 (* the rule before the F8 fix, kept for the refutation example *)
 Definition mk_config_pre_f8 := mk_config_gen2 true false.
